@@ -122,6 +122,20 @@ class Report:
             self.unk(rule, "anchor-missing", "", str(e))
             self.note("%s: %s" % (rule, e))
             return None
+        except Exception as e:      # noqa: BLE001
+            # a rule that trips over a shape of code it was not written for has not decided
+            # anything: the instance is UNDECIDED (with the traceback on stderr), the other rules
+            # of the property still run. (On the reference tree no rule fails this way; the
+            # warning line and the floors make a rule that stops working visible.)
+            import traceback
+            rule = next((a for a in args if isinstance(a, str) and re.match(r"^C\d\d\.", a)),
+                        getattr(func, "__name__", "rule"))
+            traceback.print_exc(file=sys.stderr)
+            print("CHECK-WARNING %s: the rule could not analyse this tree (%s: %s)"
+                  % (rule, type(e).__name__, e), file=sys.stderr)
+            self.unk(rule, "rule-not-applicable", "", "%s: %s" % (type(e).__name__, e))
+            self.note("%s: not analysed (%s)" % (rule, type(e).__name__))
+            return None
 
     def note(self, s):
         self.notes.append(s)
